@@ -32,9 +32,9 @@ fn h_ck_accumulator() {
     let mut s: u32 = w0 as u32 + w1 as u32 + w2 as u32 + w3 as u32;
     s = (s & 0xffff) + (s >> 16);
     s = (s & 0xffff) + (s >> 16);
-    // equal as one's-complement numbers (0x0000 and 0xffff are both zero; the reference yields 0 only for all-zero input)
-    assert!(c.0 as u32 == s);
+    // observable result only (the accumulator's representation is not part of the contract)
     let field = c.as_u16();
+    assert!(field as u32 == if s == 0xffff { 0xffff } else { !s & 0xffff });
     let mut t: u32 = s + field as u32;
     t = (t & 0xffff) + (t >> 16);
     assert!(t == 0xffff);
@@ -62,5 +62,5 @@ fn h_ck_payload() {
     if n > 4 { s += b(4) << 8; }
     s = (s & 0xffff) + (s >> 16);
     s = (s & 0xffff) + (s >> 16);
-    assert!(c.0 as u32 == s);
+    assert!(c.as_u16() as u32 == if s == 0xffff { 0xffff } else { !s & 0xffff });
 }
